@@ -1,0 +1,27 @@
+//go:build verif
+
+package environment
+
+// VerifC06PendingCalls walks callsPendingAwait (calls started at their trigger and not yet
+// collected at their await point) and returns how many entries there are and how many of them
+// are still live, i.e. started and never cancelled.  Read-only; to be called on a quiescent
+// environment (no transition in progress).
+func (env *Environment) VerifC06PendingCalls() (total int, live int) {
+	if env == nil {
+		return
+	}
+	for _, byWeight := range env.callsPendingAwait {
+		for _, calls := range byWeight {
+			for _, c := range calls {
+				if c == nil {
+					continue
+				}
+				total++
+				if c.VerifC06Live() {
+					live++
+				}
+			}
+		}
+	}
+	return
+}
